@@ -111,3 +111,80 @@ def oracle(ck) -> int:
     ck.exhaustive_scopes.append({"scope": "instances of one class that differ in protocol membership: 5 expansion kinds x {2 orders x 3 rendering routes as a process "
                                           "history, 3 shapes inside one tree, both protocols on one instance}", "n": n, "exhaustive": True})
     return n
+
+
+def odd_tagifiable_oracle(ck) -> int:
+    """an object with tagify() is a node whatever else it is: a `collections.abc.Sequence` (items via __getitem__/__len__), a
+    dict subclass, an iterable — it is expanded by render(), never dissolved into its items or read as attributes"""
+    import collections.abc
+    from htmltools import HTMLDependency, HTMLDocument, Tag, TagList
+    n = 0
+
+    def dep(nm):
+        return HTMLDependency(nm, "1.0", head=Tag("meta", name=nm))
+
+    class Menu(collections.abc.Sequence):
+        def __init__(self, *items):
+            self.items = list(items)
+
+        def __getitem__(self, i):
+            return self.items[i]
+
+        def __len__(self):
+            return len(self.items)
+
+        def tagify(self):
+            return Tag("ul", *[Tag("li", x) for x in self.items], dep("menu"))
+
+    class Bag:
+        def __init__(self, *items):
+            self.items = items
+
+        def __iter__(self):
+            return iter(self.items)
+
+        def tagify(self):
+            return TagList(*[Tag("i", x) for x in self.items], dep("bag"))
+
+    class Rec(dict):
+        def tagify(self):
+            return Tag("dl", *[Tag("dt", k) for k in self])
+
+    class Plain:
+        def __init__(self, f):
+            self.f = f
+
+        def tagify(self):
+            return self.f()
+
+    odd = [("Sequence with tagify", lambda: Menu("a", "b"), lambda: Plain(lambda: Menu("a", "b").tagify())),
+           ("empty Sequence with tagify", lambda: Menu(), lambda: Plain(lambda: Menu().tagify())),
+           ("iterable with tagify", lambda: Bag("x", "y"), lambda: Plain(lambda: Bag("x", "y").tagify())),
+           ("dict subclass with tagify", lambda: Rec(k1=1, k2=2), lambda: Plain(lambda: Rec(k1=1, k2=2).tagify()))]
+    places = [("TagList item", lambda w: TagList("p", w, "q")), ("in a nested list of a Tag", lambda w: Tag("div", ["p", [w]], "q")),
+              ("appended", lambda w: (lambda t: (t.append(w), t)[1])(Tag("section", "s"))), ("extended", lambda w: (lambda t: (t.extend([w, "z"]), t)[1])(TagList("s"))),
+              ("document content", lambda w: HTMLDocument(TagList(w, "z")))]
+    for ol, mk, plain in odd:
+        for pl, place in places:
+            if ol.startswith("dict") and pl in ("in a nested list of a Tag",):
+                pass
+            n += 1
+            ck.holds_checked += 1
+            try:
+                wr = place(plain()).render()
+                want = (wr["html"], [(d.name, str(d.version)) for d in wr["dependencies"]])
+            except Exception as e:  # noqa: BLE001
+                ck.py_violation(f"odd_tagifiable {ol} / {pl}", f"raised {type(e).__name__}: {e}", "the reference (ordinary tagifiable object) raised", py=ol)
+                continue
+            try:
+                gr = place(mk()).render()
+                got = (gr["html"], [(d.name, str(d.version)) for d in gr["dependencies"]])
+            except Exception as e:  # noqa: BLE001
+                got = f"raised {type(e).__name__}: {e}"
+            if got != want:
+                ck.py_violation(f"odd_tagifiable {ol} / {pl}", str(got)[:400],
+                                f"an object with tagify() that is also a {ol.split(' with')[0]} ({pl}) renders {str(got)[:300]!r}; an ordinary object with the same "
+                                f"expansion renders {str(want)[:300]!r}",
+                                py=f"class Menu(collections.abc.Sequence): ...  # __getitem__/__len__ over its items, tagify() -> <ul>\nTagList('p', Menu('a', 'b'), 'q').render()   # {ol}; {pl}")
+    ck.exhaustive_scopes.append({"scope": "tagifiable objects that are also Sequence / iterable / dict instances: 4 kinds x 5 places, against an ordinary tagifiable object", "n": n, "exhaustive": True})
+    return n
